@@ -63,6 +63,13 @@ for _n in ('sqrt', 'sin', 'cos', 'tan', 'atan', 'exp', 'radians'):
     INTRINSICS[getattr(math, _n)] = _uf1(_n)
 
 
+@intrinsic(Fraction)
+def _fraction(ip, args, kwargs, st, node):
+    if any(is_sym(a) for a in args):
+        raise EngineError('Fraction() of symbolic value')
+    return Fraction(*args)
+
+
 @intrinsic(math.atan2)
 def _atan2(ip, args, kwargs, st, node):
     return mm.uf_apply(ip.ctx, 'atan2', _num(ip, node, args[0]), _num(ip, node, args[1]))
